@@ -5,7 +5,9 @@
    configured control destination [api], every state of the two rule tables and every command.
    [repaired] = the code with the repairs F11a (nil rule), F11b (replies through json.Marshal) and F11c
    (which = "deleteAll"); what the tree did before them is recorded at the end ([..._pinned_refuted]). *)
-From Relay Require Import Base.Prelude Base.AList Model.AdminJson Model.AdminApi Proofs.AdminApi_proofs.
+From Relay Require Import Base.Prelude Base.AList Model.AdminJson Model.AdminApi Model.AdminDecode
+                          Proofs.AdminApi_proofs Proofs.AdminDecode_proofs.
+From Relay Require Base.Json.
 
 (* the handler never dereferences a nil rule: no command, in no history, ends the host *)
 Theorem C18_admin_total :
@@ -37,6 +39,91 @@ Theorem C18_invalid_keeps_rules :
   forall dd ds api fx s c t, snd (step dd ds api fx s c) = Err t -> fst (step dd ds api fx s c) = s.
 Proof. exact invalid_keeps_rules. Qed.
 Print Assumptions C18_invalid_keeps_rules.
+
+(* ---- "every byte string sent as a command": the handler on the BYTES of a message.  [decode] (Model/AdminDecode.v)
+   is the model of json.Unmarshal(msg, &vw.Command): Base/Json.v's json.Valid, the top-level value (null / object /
+   anything else), keys unquoted and matched without regard to ASCII case, members stored in order (the last one
+   for a field decides), strings unquoted with invalid UTF-8 and lone surrogates replaced, the rule kept verbatim.
+   [handle] = decode, then the dispatch of [step].  The correspondence run decodes every command message it
+   sends (the malformed stream and the decoder corners included) and must arrive at what the real json.Unmarshal
+   produced.  Only the INNER decoding of the rule into rwc.Rule / agg.Rule stays an oracle ([dd], [ds], any). *)
+
+(* for EVERY byte list, every state, every configured destination: the handler's reply is valid JSON *)
+Theorem C18_every_byte_string_gets_a_json_reply :
+  forall dd ds api s msg,
+    exists b, render repaired (snd (handle dd ds api repaired s msg)) = Some b /\ wf b = true.
+Proof. exact every_byte_string_gets_a_json_reply. Qed.
+Print Assumptions C18_every_byte_string_gets_a_json_reply.
+
+(* ... and with the inner decoding of the rule modelled as well ([dec_dest_model], [dec_stream_model]: the rule
+   bytes parsed by Base/Json.v and stored field by field into rwc.Rule / agg.Rule with encoding/json's matching
+   and error texts) no oracle is left: for every SEQUENCE of byte strings from every state, every message is
+   answered, with valid JSON, and the host survives *)
+Theorem C18_every_byte_string_sequence_answered :
+  forall api msgs s,
+    Forall (fun a => exists b, render repaired a = Some b /\ wf b = true)
+           (snd (run dec_dest_model dec_stream_model api repaired s (map decode msgs))) /\
+    ~ In Panic (snd (run dec_dest_model dec_stream_model api repaired s (map decode msgs))).
+Proof. intros api msgs s. split; [exact (bytes_sequence_answered api msgs s)|exact (bytes_sequence_never_panics api msgs s)]. Qed.
+Print Assumptions C18_every_byte_string_sequence_answered.
+
+(* every byte list is decoded one way or the other, and it is known which: an error exactly when it is not one
+   JSON value, or its top-level value is neither null nor an object, or some member gives a string field a value
+   that is neither a string nor null; otherwise each field is what its last storable member says *)
+Theorem C18_decode_total :
+  forall msg,
+    (decode msg = None /\
+     (Json.json_wf msg = false \/ top_members msg = None \/
+      exists ms, top_members msg = Some ms /\ existsb bad_member ms = true)) \/
+    (exists ms, Json.json_wf msg = true /\ top_members msg = Some ms /\ existsb bad_member ms = false /\
+                decode msg = Some (mkc (last_str FVerb ms) (last_str FWhat ms) (last_str FWhich ms) (last_rule ms))).
+Proof. exact decode_total. Qed.
+Print Assumptions C18_decode_total.
+
+(* the documented matching rule: keys select a field without regard to ASCII case, and of several string
+   members for one field the LAST one decides (members for other fields, nulls and unknown keys in between or
+   after do not matter) *)
+Theorem C18_decode_case_insensitive_last_wins :
+  (forall k k', map lower k = map lower k' -> field_of k = field_of k') /\
+  (forall f pre k raw s rest,
+     field_of k = Some f -> classify raw = RStr s -> existsb (string_for f) rest = false ->
+     last_str f (pre ++ (k, raw) :: rest) = s).
+Proof. split; [exact field_of_case_insensitive|exact last_string_member_wins]. Qed.
+Print Assumptions C18_decode_case_insensitive_last_wins.
+
+(* a message that does not decode is refused with the plain error and changes no table (every code variant);
+   whatever is not one JSON value does not decode *)
+Theorem C18_undecodable_bytes_change_nothing :
+  forall dd ds api fx s msg, decode msg = None -> handle dd ds api fx s msg = (s, Err e_bad).
+Proof. exact undecodable_bytes_change_nothing. Qed.
+Print Assumptions C18_undecodable_bytes_change_nothing.
+
+Theorem C18_not_json_is_undecodable : forall msg, Json.json_wf msg = false -> decode msg = None.
+Proof. exact not_json_is_undecodable. Qed.
+Print Assumptions C18_not_json_is_undecodable.
+
+(* non-vacuity: upper-case and escaped keys, a duplicate in both roles, a null in between, a rule kept verbatim;
+   the same message with a number for "which" does not decode; trailing bytes do not decode *)
+Example C18_decode_witness :
+  decode (bytes_of "{""VERB"":""delete"",""\u0076erb"":""add"",""what"":null,""What"":""stream"",""verb"":null, ""rule"" : {""stream"": ""s""} ,""x"":[1]}")
+    = Some (mkc k_add k_stream [] (Some (bytes_of "{""stream"": ""s""}"))) /\
+  decode (bytes_of "{""verb"":""list"",""which"":5}") = None /\
+  decode (bytes_of "{""verb"":""list""}}") = None /\
+  decode (bytes_of "null") = Some zero_cmd /\ decode (bytes_of """add""") = None.
+Proof. vm_compute. repeat split. Qed.
+
+(* non-vacuity of the whole chain on bytes: an "add stream" with upper-case keys is decoded, the rule's own
+   decoding strips nothing but the leading slash, the table has the rule, the reply is its JSON; a rule whose
+   feeds are numbers is refused with encoding/json's error text and changes nothing *)
+Example C18_handle_bytes_witness :
+  let s0 := mkst [] [] in
+  let m1 := bytes_of "{""VERB"":""add"",""What"":""stream"",""rule"":{""Stream"":""/s"",""feeds"":[""a"",null]}}" in
+  let m2 := bytes_of "{""verb"":""add"",""what"":""stream"",""rule"":{""stream"":""t"",""feeds"":[1]}}" in
+  handle_bytes [] repaired s0 m1
+    = (mkst [] [(bytes_of "s", Some [bytes_of "a"; []])], Ok (bytes_of "{""stream"":""s"",""feeds"":[""a"",""""]}")) /\
+  handle_bytes [] repaired s0 m2
+    = (s0, Err (bytes_of "json: cannot unmarshal number into Go struct field Rule.feeds of type string")).
+Proof. vm_compute. split; reflexivity. Qed.
 
 (* "well formed or not ... non-JSON": a message whose outer decoding fails (not JSON at all, or a member of
    the wrong type - [None] in the model; the decoding itself is encoding/json's, tied in by the correspondence
